@@ -151,6 +151,11 @@ func cmdCheck(args []string) {
 		if fc.AssumeRequires {
 			trusted = append(trusted, "preconditions of "+fc.Key()+" are assumed at its call sites (facts about a dependency's data)")
 		}
+		for _, ord := range sortedLoopOrds(fc) {
+			for _, a := range fc.Loops[ord].Assumed {
+				trusted = append(trusted, fmt.Sprintf("assumed (not proved) at the head of loop %d of %s: %s", ord, fc.Key(), a.Src))
+			}
+		}
 		for _, cn := range fc.AssumeCallee {
 			trusted = append(trusted, "inside "+fc.Key()+" the preconditions of "+cn+" are assumed at its call sites, not proved")
 		}
@@ -441,3 +446,12 @@ func writeEvidence(verif, prop, tier, level string, seed int, t0 time.Time, p *P
 func round2(f float64) float64 { return float64(int(f*100+0.5)) / 100 }
 
 var specUsed = map[string]bool{}
+
+func sortedLoopOrds(fc *FuncContract) []int {
+	var out []int
+	for k := range fc.Loops {
+		out = append(out, k)
+	}
+	sort.Ints(out)
+	return out
+}
